@@ -241,6 +241,64 @@ theorem cleanup_iff_started_tree_partial (tbl : List AppDef) (entry : Entry)
         rw [FULL.2 a hsu']; rfl
       simp [hsu', this]
 
+/-- **No `on_cleanup` failure can hide the root application's contexts.**  For any tree,
+through either entry: if start-up and the `on_shutdown` signal complete without raising,
+then every context of the *root* application whose start-up completed has its cleanup code
+run — whichever `on_cleanup` handlers (of the root or of any sub-application) and whichever
+cleanup codes raise.  (The root's context callback is the first receiver of `on_cleanup`;
+the same holds for no other application, see `cleanup_error_skips_subapp_contexts`.) -/
+theorem root_contexts_always_cleaned (d : AppDef) (t : List AppDef) (entry : Entry)
+    (hwf : wellFormed (d :: t) = true)
+    (hstart : (Runner.step (d :: t) {} .setup).err = none)
+    (hsd : (send (d :: t) .shutdown (rootChain (d :: t) .shutdown)
+      (Runner.step (d :: t) {} .setup).r.X).err = none) :
+    ∀ i, (0, i) ∈ enteredOf (lifeLog (d :: t) entry) → (0, i) ∈ exitsOf (lifeLog (d :: t) entry) := by
+  have hentry : lifeLog (d :: t) entry = lifeLog (d :: t) .runner := by
+    cases entry with
+    | runner => rfl
+    | runApp => exact run_app_eq_runner_when_startup_succeeds _ hstart
+  rw [hentry, lifeLog_runner]
+  simp only [wellFormed, Bool.and_eq_true, decide_eq_true_eq] at hwf
+  have hsu : (send (d :: t) .startup (rootChain (d :: t) .startup) Exits.empty).err = none ∧
+      (Runner.step (d :: t) {} .setup).ev = (send (d :: t) .startup (rootChain (d :: t) .startup) Exits.empty).ev ∧
+      (Runner.step (d :: t) {} .setup).r =
+        ⟨(send (d :: t) .startup (rootChain (d :: t) .startup) Exits.empty).X, true, true⟩ := by
+    revert hstart
+    simp only [Runner.step]
+    cases (send (d :: t) .startup (rootChain (d :: t) .startup) Exits.empty).err <;> simp
+  obtain ⟨hsuok, hsuev, hsur⟩ := hsu
+  have FULL := send_startup_full (d :: t) (rootChain (d :: t) .startup) Exits.empty hwf.1 (fun _ _ => rfl) hsuok
+  rw [hsur] at hsd ⊢
+  obtain ⟨rest, hrest⟩ : ∃ rest, rootChain (d :: t) .cleanup = Step.grp 0 :: rest := ⟨_, rfl⟩
+  have EX := send_cleanup_exits (d :: t) (rootChain (d :: t) .cleanup)
+    (send (d :: t) .startup (rootChain (d :: t) .startup) Exits.empty).X
+  have CB := send_cleanup_basic (d :: t) (rootChain (d :: t) .cleanup)
+    (send (d :: t) .startup (rootChain (d :: t) .startup) Exits.empty).X
+  have SD := send_shutdown_log (d :: t) (rootChain (d :: t) .shutdown)
+    (send (d :: t) .startup (rootChain (d :: t) .startup) Exits.empty).X
+  have hcl : exitsOf (Runner.step (d :: t)
+        ⟨(send (d :: t) .startup (rootChain (d :: t) .startup) Exits.empty).X, true, true⟩ .cleanup).ev =
+      exitsOf (send (d :: t) .cleanup (rootChain (d :: t) .cleanup)
+        (send (d :: t) .startup (rootChain (d :: t) .startup) Exits.empty).X).ev := by
+    simp only [Runner.step, if_true, hsd]
+    split <;> simp [SD.2.1]
+  intro i hi
+  simp only [enteredOf_append, exitsOf_append, hsuev, send_startup_exits, hcl, List.nil_append] at hi ⊢
+  have hiX : i ∈ (send (d :: t) .startup (rootChain (d :: t) .startup) Exits.empty).X 0 := by
+    rcases List.mem_append.mp hi with h | h
+    · rw [FULL.1] at h
+      simp only [List.mem_flatMap, List.mem_map, Prod.mk.injEq] at h
+      obtain ⟨g, _, j, hj, rfl, rfl⟩ := h
+      exact hj
+    · have hnone : enteredOf (Runner.step (d :: t)
+          ⟨(send (d :: t) .startup (rootChain (d :: t) .startup) Exits.empty).X, true, true⟩ .cleanup).ev = [] := by
+        simp only [Runner.step, if_true, hsd]
+        split <;> simp [SD.1, CB.1]
+      rw [hnone] at h; cases h
+  rw [EX, hrest]
+  simp only [reached, List.flatMap_cons, List.mem_append, List.mem_map, List.mem_reverse]
+  exact Or.inl ⟨i, hiX, rfl⟩
+
 /-- **F16 in general.**  Through `_run_app`, whenever start-up raises — whatever the table,
 wherever the failure — *no* cleanup code runs at all (`await runner.setup()` precedes the
 `try … finally: await runner.cleanup()`). -/
@@ -315,6 +373,14 @@ example :
     (∀ a ∈ groupsOf (rootChain tbl .startup), a ∈ groupsOf (rootChain tbl .cleanup)) ∧
     (Runner.step tbl {} .setup).err = none ∧
     (Runner.step tbl (Runner.step tbl {} .setup).r .cleanup).err = none := by
+  decide +kernel
+
+/-- a tree whose root `on_cleanup` handler raises satisfies the hypotheses of
+`root_contexts_always_cleaned` -/
+example :
+    let tbl := rootSub ctxOk [.sub 1] [.sub 1] [.h 1 .exc, .sub 1]
+    wellFormed tbl = true ∧ (Runner.step tbl {} .setup).err = none ∧
+    (send tbl .shutdown (rootChain tbl .shutdown) (Runner.step tbl {} .setup).r.X).err = none := by
   decide +kernel
 
 /-- an application with failing contexts and handlers satisfies the hypotheses of
